@@ -177,8 +177,20 @@ def ghostDiff (srv : Server) (gs : List (Nat Ã— List String)) : Option (String Ã
           | _ => none
 
 /-- which properties a state difference after this event is a failing input of -/
-def ghostBlame (iev : IEv) (ds : List Delivery) (outcome : Outcome) (what : String) : List (String Ã— String) :=
+def ghostBlame (flags : List String) (iev : IEv) (ds : List Delivery) (outcome : Outcome) (what : String) : List (String Ã— String) :=
   let actor := evActor iev
+  -- the broadcast switches that bear on this event: such a switch may silence a relay, never change what is stored
+  let switches : List String := match iev with
+    | .disconnect _ => ["PARTICIPANT_LEAVE", "ENTITY_DELETE"]
+    | .handle _ (some (.join ..)) _ => ["PARTICIPANT_JOIN", "PARTICIPANT_LEAVE", "ENTITY_DELETE", "SESSION_STATE"]
+    | .handle _ (some (.entityAdd ..)) _ => ["ENTITY_ADD"]
+    | .handle _ (some (.entityDelete ..)) _ => ["ENTITY_DELETE"]
+    | .handle _ (some (.updatePose ..)) _ => ["ENTITY_UPDATE_POSE"]
+    | .handle _ (some (.compAdd ..)) _ => ["ENTITY_COMPONENT_ADD"]
+    | .handle _ (some (.compDelete ..)) _ => ["ENTITY_COMPONENT_DELETE"]
+    | .handle _ (some (.compUpdate ..)) _ => ["ENTITY_COMPONENT_UPDATE"]
+    | _ => []
+  let switched := flags.any fun f => switches.any fun (w : String) => (f.splitOn w).length > 1
   let refused := ds.any fun (d : Delivery) => d.1 == actor && (match d.2 with | .error .. => true | _ => false)
   let foreignAttempt := match iev with
     | .handle _ (some (.entityDelete ..)) _ | .handle _ (some (.updatePose ..)) _ | .handle _ (some (.assetAdd ..)) _ => true
@@ -201,7 +213,8 @@ def ghostBlame (iev : IEv) (ds : List Delivery) (outcome : Outcome) (what : Stri
   (if what == "subs" then [("C13", "subscriptions-differ")] else []) ++
   (if what == "comps" || what == "types" then [("C12", "component-store-differs")] else []) ++
   (if what == "actions" || what == "assets" then [("C16", "module-state-differs")] else []) ++
-  (if what == "counters" then [("C10", "id-counter-differs")] else [])
+  (if what == "counters" then [("C10", "id-counter-differs")] else []) ++
+  (if switched && what != "counters" then [("C17", "state-differs-under-a-broadcast-switch")] else [])
 
 def processBlock (h : Hist) (b : Block) (outcome : Outcome) : Hist :=
   -- the frames that follow a concurrent block at once: each reaches exactly the connections of the session's members
@@ -271,7 +284,7 @@ def processBlock (h : Hist) (b : Block) (outcome : Outcome) : Hist :=
           | some (what, detail) =>
             let d := s!"after event {evNo} ({" ".intercalate (b.ev.take 6)}) {detail}"
             { h with diff := some s!"event={evNo} kind=ghost-{what} topic={topic} :: {detail}",
-                     concViol := (ghostBlame iev b.ds outcome what).foldl (fun (v : Array (String Ã— String Ã— String)) (x : String Ã— String) => v.push (x.1, x.2, d)) h.concViol }
+                     concViol := (ghostBlame h.cfg.flags iev b.ds outcome what).foldl (fun (v : Array (String Ã— String Ã— String)) (x : String Ã— String) => v.push (x.1, x.2, d)) h.concViol }
 
 /-! ### concurrent blocks: the implementation must behave like some serial order of the same requests on the model -/
 
@@ -454,6 +467,13 @@ def processConc (h : Hist) (b : Block) (otoks : List String) : Hist :=
           let outsOk := (order.zip steps).all fun (x : ((Nat Ã— Option Req) Ã— String) Ã— (IEv Ã— List Delivery Ã— Outcome)) => outcomeTok x.2.2.2 == x.1.2
           let ms := sortNat (srv'.sessions.map fun (x : Session) => x.id)
           if outsOk && ms == b.sessions && srv'.gauge == b.gauge && (ghostDiff srv' b.ghost).isNone then some (srv', steps) else none
+    -- C12 under concurrency: a component is added at most once per (type, entity) - whatever else the block is judged to be
+    let addsOk := tasks.filterMap fun (t : Nat Ã— Option Req) =>
+      match t.2 with
+      | some (.compAdd rid _ tid eid _) => if (inboxOf t.1 b.ds).contains (.compAddResp rid) then some (tid, eid) else none
+      | _ => none
+    let h := if addsOk.eraseDups.length == addsOk.length then h else
+      { h with concViol := h.concViol.push ("C12", "component-added-twice", flatS s!"{" ".intercalate b.ev} :: two requests of the block were both answered that they added the component (type, entity) {addsOk}") }
     match byState with
     | some (srv', steps) =>
       -- the state is that of a serial order, the relays are not: recorded (F26), the members of the sessions concerned
@@ -567,13 +587,6 @@ def processConc (h : Hist) (b : Block) (otoks : List String) : Hist :=
       let viol := if refusedLeaves.isEmpty then viol else
         (viol.push ("C02", "refused-request-relayed", flatS s!"{" ".intercalate b.ev} :: {refusedLeaves}")).push
           ("C04", "refused-request-changed-state", flatS s!"{" ".intercalate b.ev} :: {refusedLeaves}")
-      -- C12 under concurrency: a component is added at most once per (type, entity)
-      let addsOk := tasks.filterMap fun (t : Nat Ã— Option Req) =>
-        match t.2 with
-        | some (.compAdd rid _ tid eid _) => if (inboxOf t.1 b.ds).contains (.compAddResp rid) then some (tid, eid) else none
-        | _ => none
-      let viol := if addsOk.eraseDups.length == addsOk.length then viol else
-        viol.push ("C12", "component-added-twice", flatS s!"{" ".intercalate b.ev} :: two requests of the block were both answered that they added the component (type, entity) {addsOk}")
       -- C13 under concurrency: an update is relayed to the subscribers of its type - to every one that stays subscribed,
       -- and to nobody that neither was nor becomes a subscriber within the block
       let subIssues : List String := tasks.flatMap fun (t : Nat Ã— Option Req) =>
